@@ -80,8 +80,9 @@ func hazardsOf(src string) string {
 }
 
 // judgeWrite checks one sink write against its expectation. It returns rule
-// names with explanations; matched=false means the write is not the expected
-// record at all (used for optional expectations).
+// names with explanations; matched=false means the write does not carry the
+// identity (level letter, relayed prefix, scope) of the expected record; this is
+// used to keep writes and expectations aligned after a missing or extra record.
 func judgeWrite(wr []byte, e expectation) (problems [][2]string, matched bool) {
 	s := string(wr)
 	add := func(rule, what string) { problems = append(problems, [2]string{rule, what}) }
@@ -121,7 +122,6 @@ func judgeWrite(wr []byte, e expectation) (problems [][2]string, matched bool) {
 	}
 	body := strings.TrimSuffix(rest, "\n")
 	if !strings.HasPrefix(body, e.BodyStart) {
-		matched = false
 		add("content", fmt.Sprintf("message %q does not start with the neutralized text %q", body, e.BodyStart))
 	}
 	return problems, matched
@@ -396,8 +396,29 @@ func c44case(r *vk.Run, col *collector, rng *rand.Rand, idx int, stats map[strin
 			continue
 		}
 		problems, matched := judgeWrite(writes[wi], e)
-		if e.Optional && !matched {
-			continue // the optional record was dropped; the write belongs to a later expectation
+		if !matched {
+			if e.Optional {
+				continue // the optional record was dropped; the write belongs to a later expectation
+			}
+			// Re-align: does a later write carry this record (then this write is surplus),
+			// or does this write carry a later record (then this record is missing)?
+			extra, missing := false, false
+			for k := 1; k <= 3 && wi+k < len(writes) && !extra; k++ {
+				_, extra = judgeWrite(writes[wi+k], e)
+			}
+			for k := 1; k <= 3 && ei+k < len(expected) && !missing; k++ {
+				_, missing = judgeWrite(writes[wi], expected[ei+k])
+			}
+			if extra {
+				report("extra-record", "any", fmt.Sprintf("sink received a write that corresponds to no record: %q", writes[wi]), nil, writes[wi])
+				wi++
+				ei--
+				continue
+			}
+			if missing {
+				report("record-missing", e.Route, fmt.Sprintf("no sink write for the record %q", e.Source), &e, nil)
+				continue
+			}
 		}
 		for _, p := range problems {
 			report(p[0], e.Route, p[1], &e, writes[wi])
